@@ -263,9 +263,10 @@ func c08Text(r *rng, items []c08Item, explicit bool, perturb int) (string, int) 
 			fmt.Fprintf(&b, "\t%sadd i32 %s, 2\n", lhs, op)
 			lastVal = i
 		case 'C':
-			b.WriteString("\tcall void @vf()\n")
+			// the callee type may be written as the return type or as the full function type
+			b.WriteString("\tcall " + []string{"void", "void ()"}[r.intn(2)] + " @vf()\n")
 		case 'V':
-			fmt.Fprintf(&b, "\t%scall i32 @if()\n", lhs)
+			fmt.Fprintf(&b, "\t%scall %s @if()\n", lhs, []string{"i32", "i32 ()"}[r.intn(2)])
 			lastVal = i
 		case 'S':
 			b.WriteString("\tstore i32 1, i32* null\n")
@@ -275,9 +276,9 @@ func c08Text(r *rng, items []c08Item, explicit bool, perturb int) (string, int) 
 			// invoke to the next block (or itself when last)
 			tgt := "%" + c08BlockLabel(items, want, i)
 			if it.kind == 'N' {
-				fmt.Fprintf(&b, "\t%sinvoke i32 @if() to label %s unwind label %s\n", lhs, tgt, tgt)
+				fmt.Fprintf(&b, "\t%sinvoke %s @if() to label %s unwind label %s\n", lhs, []string{"i32", "i32 ()"}[r.intn(2)], tgt, tgt)
 			} else {
-				fmt.Fprintf(&b, "\tinvoke void @vf() to label %s unwind label %s\n", tgt, tgt)
+				fmt.Fprintf(&b, "\tinvoke %s @vf() to label %s unwind label %s\n", []string{"void", "void ()"}[r.intn(2)], tgt, tgt)
 			}
 		}
 	}
